@@ -5,5 +5,5 @@ CONSTANTS
   Variant = "ok"
 INIT OInit
 NEXT ONext
-INVARIANTS Completeness Accuracy Initialised ReadPure ReadError ReadSteadyFast ReadAbortBounded
+INVARIANTS Completeness Accuracy Initialised ReadPure ReadError MonitorCrash ReadSteadyFast ReadAbortBounded
 CHECK_DEADLOCK FALSE
